@@ -246,6 +246,27 @@ pub fn run(run: &Run) {
             }
         }
     }
+    // cell-by-cell integration over a uniform grid, sequentially on one thread: consecutive calls on intervals of the same
+    // width at different positions (each call is judged; a rule must not remember the previous interval)
+    {
+        for &(a0, h, cells) in &[(0.5, 1.25, 6usize), (-3.0, 0.5, 12), (10.0, 0.125, 8), (-1.0, 2.0, 3)] {
+            for d in [0u32, 1, 3, 5, 9] {
+                for k in 0..cells {
+                    let (a, b) = (a0 + k as f64 * h, a0 + (k + 1) as f64 * h);
+                    let (want, scale) = mono_int(a, b, d);
+                    run.case();
+                    run.nontrivial(1);
+                    judge(run, "quad5/cell-by-cell", guard(|| quad5(|x| x.powi(d as i32), a, b)), want, 64.0 * U * scale.abs().max(want.abs()) + 1e-300, &|| format!("quad5(x^{}, {}, {}) as cell {} of a uniform grid (called right after the previous cell)", d, a, b, k));
+                    if d <= 3 {
+                        judge(run, "romberg/cell-by-cell", guard(|| romberg(|x| x.powi(d as i32), a, b, 0.0, 4)), want, 256.0 * U * scale.abs().max(want.abs()) + 1e-300, &|| format!("romberg(x^{}, {}, {}, 0, 4) as cell {} of a uniform grid", d, a, b, k));
+                    }
+                    if d <= 1 {
+                        judge(run, "trapz/cell-by-cell", guard(|| trapz(|x| x.powi(d as i32), a, b, 3)), want, 64.0 * U * scale.abs().max(want.abs()) + 1e-300, &|| format!("trapz(x^{}, {}, {}, 3) as cell {} of a uniform grid", d, a, b, k));
+                    }
+                }
+            }
+        }
+    }
     // iterated integrals: the integrand of one rule calls another rule (or the same one)
     {
         run.case();
